@@ -533,7 +533,7 @@ def run(ctx):
     total = 0
     for batch in generate(ctx.tier):
         total += len(batch)
-        ctx.evaluate(batch, chunk=1000, timeout=5)
+        ctx.evaluate(batch, chunk=1000, timeout=60)  # per case; generous, so that a loaded machine cannot turn a slow case into a "no termination"
     sizes = (60, 150, 320) if ctx.tier == "quick" else (60, 150, 320, 700)
     large = [{"family": "large", "n": n, "order": order, "defect": defect} for n in sizes for order in LARGE_ORDERS for defect in ("none", "cycle", "missing")]
     total += len(large)
